@@ -496,33 +496,49 @@ def PointsTo (keys : List (List Nat)) : List (List Nat) → List Nat → Prop
   | f :: fs, i :: ids => keys[i]? = some (keyF f) ∧ PointsTo keys fs ids
   | _, _ => False
 
-theorem idsOf_ok (keys fs ids) (h : idsOf keys fs = .ok ids) : PointsTo keys fs ids := by
-  induction fs generalizing ids with
-  | nil => simp [idsOf] at h; subst h; trivial
-  | cons f fs ih =>
-    simp only [idsOf] at h
-    split at h
-    · cases h
-    · rename_i i hi
-      split at h
-      · rename_i l hl
-        injection h with h; subst h
-        have := lastIdx_some _ _ _ _ hi
-        exact ⟨by simpa using this.2, ih l hl⟩
-      · cases h
+theorem lastIdx_none {κ : Type} [DecidableEq κ] (k : κ) (keys : List κ) (i0 : Nat)
+    (h : lastIdx k keys i0 = none) : k ∉ keys := by
+  intro hm
+  obtain ⟨j, hj⟩ := lastIdx_of_mem k keys i0 hm
+  rw [hj] at h; cases h
 
-theorem idsOf_total (keys fs) (h : ∀ f ∈ fs, keyF f ∈ keys) : ∃ ids, idsOf keys fs = .ok ids := by
+/-- every face of `fs` is stored: one record per face, pointwise -/
+theorem idsOf_complete (keys fs) (h : ∀ f ∈ fs, keyF f ∈ keys) : PointsTo keys fs (idsOf keys fs) := by
   induction fs with
-  | nil => exact ⟨[], rfl⟩
+  | nil => trivial
   | cons f fs ih =>
     obtain ⟨j, hj⟩ := lastIdx_of_mem (keyF f) keys 0 (h f (by simp))
-    obtain ⟨l, hl⟩ := ih (fun g hg => h g (by simp [hg]))
-    exact ⟨j :: l, by simp [idsOf, hj, hl]⟩
+    have hrec := ih (fun g hg => h g (by simp [hg]))
+    have := lastIdx_some _ _ _ _ hj
+    simp only [idsOf, List.filterMap_cons, hj]
+    exact ⟨by simpa using this.2, hrec⟩
 
-/-- per cell, in order: the faces of the table, each pointing to a stored face of the same vertex set -/
+/-- the records of a cell in general (face completion possibly off): going through the faces of the table in
+order, a face whose vertex set is stored gets exactly one record, pointing to a stored face with that vertex
+set; a face that is not stored gets none -/
+def RecordsOf (keys : List (List Nat)) : List (List Nat) → List Nat → Prop
+  | [], ids => ids = []
+  | f :: fs, ids =>
+    (keyF f ∈ keys ∧ ∃ i rest, ids = i :: rest ∧ keys[i]? = some (keyF f) ∧ RecordsOf keys fs rest) ∨
+    (keyF f ∉ keys ∧ RecordsOf keys fs ids)
+
+theorem idsOf_records (keys fs) : RecordsOf keys fs (idsOf keys fs) := by
+  induction fs with
+  | nil => rfl
+  | cons f fs ih =>
+    cases hl : lastIdx (keyF f) keys 0 with
+    | none =>
+      refine Or.inr ⟨lastIdx_none _ _ _ hl, ?_⟩
+      simpa [idsOf, hl] using ih
+    | some j =>
+      have := lastIdx_some _ _ _ _ hl
+      have hk : keys[j]? = some (keyF f) := by simpa using this.2
+      refine Or.inl ⟨List.mem_of_getElem? hk, j, idsOf keys fs, ?_, hk, ih⟩
+      simp [idsOf, hl]
+
 def CellRecords (keys : List (List Nat)) : List (List Nat) → List (List Nat) → Prop
   | [], [] => True
-  | c :: cs, ids :: idss => (∃ fs, cellFacesG c = some fs ∧ PointsTo keys fs ids) ∧ CellRecords keys cs idss
+  | c :: cs, ids :: idss => (∃ fs, cellFacesG c = some fs ∧ ids = idsOf keys fs) ∧ CellRecords keys cs idss
   | _, _ => False
 
 theorem cellFaceIds_ok (keys cells idss) (h : cellFaceIds keys cells = .ok idss) :
@@ -535,28 +551,24 @@ theorem cellFaceIds_ok (keys cells idss) (h : cellFaceIds keys cells = .ok idss)
     · cases h
     · rename_i fs hfs
       split at h
+      · rename_i l hl
+        injection h with h; subst h
+        exact ⟨⟨fs, hfs, rfl⟩, ih l hl⟩
       · cases h
-      · rename_i ids hids
-        split at h
-        · rename_i l hl
-          injection h with h; subst h
-          exact ⟨⟨fs, hfs, idsOf_ok _ _ _ hids⟩, ih l hl⟩
-        · cases h
 
 theorem cellFacesG_eq (c : List Nat) (h : c.length = 4 ∨ c.length = 8) :
     cellFacesG c = some (cellFacesC c) := by
   unfold cellFacesG cellFacesC
   rcases h with h | h <;> simp [h]
 
+/-- cell-face generation fails only on a cell that is neither a tetrahedron nor a hexahedron -/
 theorem cellFaceIds_total (keys cells)
-    (ha : ∀ c ∈ cells, c.length = 4 ∨ c.length = 8)
-    (hk : ∀ c ∈ cells, ∀ f ∈ cellFacesC c, keyF f ∈ keys) : ∃ idss, cellFaceIds keys cells = .ok idss := by
+    (ha : ∀ c ∈ cells, c.length = 4 ∨ c.length = 8) : ∃ idss, cellFaceIds keys cells = .ok idss := by
   induction cells with
   | nil => exact ⟨[], rfl⟩
   | cons c cs ih =>
-    obtain ⟨ids, hids⟩ := idsOf_total keys (cellFacesC c) (hk c (by simp))
-    obtain ⟨l, hl⟩ := ih (fun d hd => ha d (by simp [hd])) (fun d hd => hk d (by simp [hd]))
-    exact ⟨ids :: l, by simp [cellFaceIds, cellFacesG_eq c (ha c (by simp)), hids, hl]⟩
+    obtain ⟨l, hl⟩ := ih (fun d hd => ha d (by simp [hd]))
+    exact ⟨idsOf keys (cellFacesC c) :: l, by simp [cellFaceIds, cellFacesG_eq c (ha c (by simp)), hl]⟩
 
 theorem genCellFaces_regen (r q : Raw) (h : genCellFaces r = .ok q) (h0 : r.cfElem = []) :
     ∃ idss, cellFaceIds (r.faces.map keyF) r.cells = .ok idss ∧ q.cfElem = idss.flatten ∧ q.cfAdj = owners idss := by
